@@ -139,6 +139,23 @@ def near_misses(rng: random.Random) -> t.Iterator[t.Tuple[str, str]]:
     yield "exp", f"S-1-5-1e3"
     yield "nul", s + "\x00"
     yield "unicode-minus", s.replace("-", "−", 1)
+    yield "vertical-tab", s + "\x0b"
+    yield "form-feed", "\x0c" + s
+    yield "nbsp", s + "\u00a0"
+    yield "bom", "\ufeff" + s
+    yield "superscript-digit", "S-1-5-\u00b2"
+    yield "superscript-rev", "S-\u00b9-5-18"
+    yield "circled-digit", "S-1-5-\u2460"
+    yield "roman-numeral", "S-1-5-\u2167"
+    yield "embedded-nul", s.replace("-", "-\x00", 2) if s.count("-") >= 2 else "S-1-\x005-18"
+    yield "thousands-of-digits", "S-1-5-" + "9" * rng.choice([4300, 5000, 20000])
+    yield "thousands-of-zeros-then-big", "S-1-5-" + "0" * 5000 + str(2**32)
+    yield "many-parts", "S-1-5" + "-1" * rng.choice([16, 17, 100, 5000])
+    yield "line-separator", s + "\u2028"
+    yield "next-line", s + "\x85"
+    yield "fullwidth-S", "\uff33" + s[1:]
+    yield "fullwidth-dash", s.replace("-", "\uff0d", 1)
+    yield "en-dash", s.replace("-", "\u2013", 1)
     yield "empty", ""
     yield "just-S", "S"
     yield "S-", "S-"
@@ -187,6 +204,16 @@ def run_shard(spec: dict, rec: Recorder) -> None:
         for s in SUITE_SIDS:
             check_sid(rec, rsd.canonical_sid_from_string(s), seen)
             rec.case(("sid", s), nontrivial=False)
+        # state between calls: look-alike SIDs interleaved and repeated in both orders must not share results
+        for _ in range(300):
+            a = gen_sid(rng, n=rng.randrange(1, 16))
+            pos = rng.randrange(len(a.subs))
+            variants = [a, a._replace(subs=a.subs[:pos] + ((a.subs[pos] + 2**31) % 2**32,) + a.subs[pos + 1 :]), a._replace(authority=(a.authority + 2**32) % 2**48), a._replace(revision=(a.revision + 1) % 10), a._replace(subs=a.subs[:-1] + ((a.subs[-1] + 1) % 2**32,))]
+            order = variants + variants[::-1] + [a]
+            for v in order:
+                check_sid(rec, v, seen)
+            rec.case(("interleaved", str(a)))
+        rec.count("interleaved_lookalike_groups", 300)
         rec.mark_exhaustive("(n in 1..15) x (R in 0..9) x authority classes x sub-authority classes")
     else:
         i = 0
